@@ -7,8 +7,6 @@ From Proofs Require Import InheritBase InheritOps.
 Import ListNotations.
 Open Scope Z_scope.
 
-Definition argval (a : cargs) (l : cls) : option Z :=
-  match validate (arg_of a l) with inr v => v | inl _ => None end.
 Definition newo (id : Z) (k : cls) (a : cargs) : aobj := mkao id k (argval a).
 
 Lemma own_create_inr : forall k idopt tag a unk s s' id,
